@@ -201,6 +201,7 @@ CGraph::UnorderedItems CGraph::ExpandInputs'''),
     info.at(dependant).Reset();
   }
   ParseCst(target);'''),
+ ('ccl/rslang/include/ccl/rslang/LexerBase.hpp', 'literal converted with stoi (reached only for tokens the range test let through)', '''    return TokenData{ static_cast<int32_t>(std::atol(Text().c_str())) }; // TODO: strtol''', '''    return TokenData{ std::stoi(Text()) };'''),
 ]
 
 
